@@ -315,7 +315,7 @@ func blocksExpectSx(blocks []Block) string {
 	for i, b := range blocks {
 		parts[i] = "(" + b.Sx() + " (context " + hxs(b.Context) + "))"
 	}
-	return strings.Join(parts, " ")
+	return canonContent(strings.Join(parts, " "))
 }
 
 func wireCaseSx(data []byte, spec TokenSpec) string {
@@ -457,7 +457,7 @@ func (g *scenGen) richTerm() Term {
 	case 4:
 		return O(r.Bool())
 	case 5:
-		return SetOf(I(1), I(2), I(int64(r.Intn(5))+3))
+		return SetOf(I(1), I(2), I(int64(r.Intn(7))+1)) // sometimes a repeated element: kept once
 	case 6:
 		return SetOf(S("a"), S(Pick(r, []string{"fresh3", "read", "b"})))
 	case 7:
